@@ -82,6 +82,10 @@ FIXED = [
   "ClassifierAfterKMeans.fit trained the given estimator object in place and predicted with it: with a stateful classifier (warm_start) a refit differed from a fresh clone's fit, and two instances built from the same classifier object overwrote each other (found by the shared-components and refit histories)"),
  ("C03", "KMeansL1L2:reconfigured:observer-differs:transform", "KMeansL1L2 with norm='L1' records n_features_in_",
   "the L1 fit never set n_features_in_: after fit(norm='L2') on p columns, set_params(norm='L1') and fit on q != p columns, predict/transform raised (stale attribute of the earlier fit); found by the reconfigured history"),
+ ("C03", "PiecewiseTreeRegressor:reconfigured:observer-differs:auto:predict_leaves", "drops the leaf regressions of a former criterion='mselin' fit",
+  "fit(criterion='mselin'); set_params(criterion='simple'); fit: leaves_index_/leaves_mapping_/betas_ of the first tree survived, predict_leaves indexed the new tree with the old leaves (a fresh estimator raises). Found statically when the required set of C03 was extended to attributes written under ANY valuation of the hyper-parameter conditions (all_fits_fresh failed), with the reconfigured history (all public methods observed) as failing input"),
+ ("C03", "DummyTimeSeriesRegressor:reconfigured:observer-differs:auto:has_preprocessing", "BaseTimeSeries resets preprocessing_",
+  "fit with a preprocessing; set_params(preprocessing=None); fit: preprocessing_ of the first fit survived, has_preprocessing() answered True and predict applied the stale transformer. Same origin as the entry above"),
  ("C03", "ConstraintKMeans:reconfigured:observer-differs:predict", "ConstraintKMeans(kmeans0=False) records n_features_in_",
   "same leak for ConstraintKMeans: fit with kmeans0=True then set_params(kmeans0=False) and fit on data of another width left the stale n_features_in_ and predict/transform raised"),
 ]
